@@ -2,6 +2,8 @@
 
 case = {"gen": kind, "max": M, "min": m, "split": bool, "rows": [[tomo_id, subtomo_id, ex,ey,ez, xx,xy,xz, g4, p1..p9, o, k], ...],
         "xpay": bool, "form": "motl"|"df", "call": {...}, "second": {"how": "moved"|"rethreshold", "rows", "max", "min"}}
+        + optional axes of audit round 2: "labels": None|"gaps"|"shuffled"|"dup"|"differ" (row labels of the two DataFrames), "ints": bool (int64
+        columns), "num": "float"|"int"|"np64" (type of max/min_distance), "paydiv": 8|100|1 (unit of p1..p9), "coincide"/"far": generator notes
 All lengths are integers in units of 2^-10 (S = 1024): entry site e, exit site x, max/min distance, the value g4 the input list carries
 in the distance column.  p1..p9 (units of 1/8) are the values of the nine fields tracing has no business with (score, geom1,
 subtomo_mean, geom3, geom5, phi, psi, theta, class), o/k the stale object/order numbers of the input lists; rows of length 9 (hand-written
@@ -24,8 +26,19 @@ RULE = ("paired entry/exit particle lists, 2..60 particles in 1..3 tomograms (ro
         "two-sided merge (D18: attach after a chain end + before a chain start; DOUBLE_CUT: tail cut + head cut; SK_BC: chain end + head "
         "cut; SC_B: tail cut + chain start) plus prefix-cut and suffix cascades, under random rotation/scale/jitter, alone or two of them "
         "interleaved, with bystander chains inserted; min_distance = 0 or 0.1..0.6*max. "
-        "Ties are excluded by construction in GENERATED cases (all in-range exit->entry squared distances pairwise distinct, none equal to "
-        "min^2, max^2 or 0); the corpus case min_distance_tie_lattice puts a distance exactly at min_distance and one exactly at "
+        "Ties are excluded by construction in GENERATED cases: all in-range exit->entry squared distances pairwise distinct (two candidates at "
+        "the same distance from one query site is the only situation in which the library's hit order decides: Props NoTies, "
+        "nearestEntry_order_free), none equal to max^2 or to a positive min^2 (there the outcome hangs on the rounding of sqrt). "
+        "COINCIDENCES are NOT ties and are generated in every run (14 % of the cases, 3/4 of them with min_distance = 0; corpus "
+        "min_zero_coincidence): the exit site of a particle IS the entry site of another one, distance exactly 0, outside (min, max] for every "
+        "min >= 0 - each site in at most one coincidence. "
+        "A second/third tomogram holds a SINGLE particle in a third of the multi-tomogram cases (corpus single_particle_tomograms); 15 % of the "
+        "cases lie 2^15..2^17 units from the origin, one offset per tomogram (27-bit coordinates: exact in float64, not in float32; corpus "
+        "far_from_origin_float32); quick draws up to 60 particles in 5 % of its cases. "
+        "INPUT FORMS (H3): 7 % all-integer lists passed as int64 columns (lengths in whole units, max/min as python int), row labels of the "
+        "two DataFrames default / with gaps / in another order / repeated / different between entry and exit list (4 in 7 non-default), "
+        "max/min_distance as python float, python int or numpy float64, free fields in units of 1/8 or of 1/100 (two decimals). "
+        "The corpus case min_distance_tie_lattice puts a distance exactly at min_distance and one exactly at "
         "max_distance on an integer lattice (3-4-5 triangle), where the comparison is exact, and is judged by the statement's window (min, max]. "
         "OTHER FIELDS: every row of the entry list carries random values in the nine free fields (score, geom1, subtomo_mean, geom3, geom5, "
         "phi, psi, theta, class; 8 % of the rows all zero), stale object/order numbers and sometimes a value in the distance column; the exit "
@@ -66,29 +79,46 @@ OPS = {ast.Lt: "lt", ast.LtE: "le", ast.Gt: "gt", ast.GtE: "ge", ast.Eq: "eq", a
 
 
 # ------------------------------------------------------------------ translator
+FLIP = {"lt": "gt", "le": "ge", "gt": "lt", "ge": "le", "eq": "eq", "ne": "ne"}
+NEG = {ast.Lt: ast.GtE, ast.LtE: ast.Gt, ast.Gt: ast.LtE, ast.GtE: ast.Lt, ast.Eq: ast.NotEq, ast.NotEq: ast.Eq,
+       ast.Is: ast.IsNot, ast.IsNot: ast.Is, ast.In: ast.NotIn, ast.NotIn: ast.In}
+
+
+class _Cmp:
+    """one comparison site `left OP right`, oriented the way the anchor asks for it"""
+    def __init__(self, node, op, right):
+        self.node, self.op, self.right, self.lineno = node, op, right, getattr(node, "lineno", 0)
+
+
 def _compares(fn, left_txt, right_txt=None):
+    """comparison sites `left_txt ? right_txt` in EITHER orientation (`a > b` and `b < a` are the same site; `_canon` has already
+    rewritten `not (a > b)` to `a <= b`)"""
     out = []
     for n in ast.walk(fn):
-        if isinstance(n, ast.Compare) and len(n.ops) == 1:
+        if isinstance(n, ast.Compare) and len(n.ops) == 1 and type(n.ops[0]) in OPS:
             l = core.norm_expr(n.left); r = core.norm_expr(n.comparators[0])
+            op = OPS[type(n.ops[0])]
             if l == left_txt and (right_txt is None or r == right_txt):
-                out.append(n)
+                out.append(_Cmp(n, op, n.comparators[0]))
+            elif r == left_txt and (right_txt is None or l == right_txt):
+                out.append(_Cmp(n, FLIP[op], n.left))
     return out
 
 
-def _one_op(fn, left, right, what, count=None):
-    ns = _compares(fn, left, right)
+def _one_op(fn, left, right, what, count=None, const_only=False):
+    ns = [n for n in _compares(fn, left, right) if not const_only or isinstance(n.right, ast.Constant)]
     if not ns or (count is not None and len(ns) != count):
-        raise core.AnchorMissing(f"{what}: expected {count or '>=1'} comparison(s) `{left} ? {right}`, found {len(ns)}")
-    ops = {OPS.get(type(n.ops[0])) for n in ns}
-    if len(ops) != 1 or None in ops:
-        raise core.AnchorMissing(f"{what}: sites disagree or unknown operator: {ops}")
+        raise core.AnchorMissing(f"{what}: expected {count or '>=1'} comparison(s) `{left} ? {right}`, found {len(ns)}"
+                                 + (f" (at lines {[n.lineno for n in ns]})" if ns else ""))
+    ops = {n.op for n in ns}
+    if len(ops) != 1:
+        raise core.AnchorMissing(f"{what}: the sites `{left} ? {right}` disagree: {sorted(ops)}")
     return ops.pop()
 
 
 # documented parameter + local-variable names of the four functions, in binding order (parameters in signature order, then every local in
-# the order of its first assignment).  `_canon` renames the names found in the CURRENT source to these by POSITION, so every anchor below
-# (written in the documented names) is insensitive to a renaming of parameters/local variables; a statement that is added, removed or
+# the order of its first binding occurrence).  `_canon` renames the names found in the CURRENT source to these by POSITION, so every anchor
+# below (written in the documented names) is insensitive to a renaming of parameters/local variables; a statement that is added, removed or
 # moved changes the binding order or the digest of the whole body and is seen by `bodies_documented`.
 DOC_NAMES = {
     "get_nn_dist": (["kdt", "query_point", "dist_max", "dist_min", "active_points", "test_value"], ["id_max", "dist", "rp_idx", "rp_dist"]),
@@ -102,32 +132,160 @@ DOC_NAMES = {
                       "p_idx", "used_idx", "p_coord", "np_idx", "np_dist", "first_coord", "nm_idx", "nm_dist", "first_idx", "first_dist",
                       "part1", "part2", "cl1", "cl2", "ch_changed", "class_max", "current_class", "cl_max"]),
 }
-# first 60 bits of sha256(ast.dump) of the canonically renamed, docstring-free function (pinned source = documented behaviour)
-DOC_DIGEST = {"get_nn_dist": 146488371323970315, "add_chain_suffix": 209518513822851188, "add_chain_prefix": 723751338633858201,
-              "trace_chains": 660282866813664413}
 FUNCS = ["get_nn_dist", "add_chain_suffix", "add_chain_prefix", "trace_chains"]
 DOC_STORE = ["object_id", "geom2", "geom4"]
 DOC_SUFFIX_CALL = ["ch_m", "fm_exit", "nfm_df", "first_idx", "first_dist", "store_idx1", "store_idx2"]
 DOC_PREFIX_CALL = ["ch_m", "fm_entry", "nfm_df", "nm_idx", "nm_dist", "store_idx1", "store_idx2", "class_max=class_max"]
+MSG = "<message>"
+MESSAGE_CALLS = ("print", "warn", "debug", "info", "warning", "error", "critical", "exception", "log")
+
+
+def _params(fn):
+    a = fn.args
+    return [x.arg for x in a.posonlyargs + a.args] + ([a.vararg.arg] if a.vararg else []) + [x.arg for x in a.kwonlyargs] \
+        + ([a.kwarg.arg] if a.kwarg else [])
 
 
 def _binding_order(fn):
-    a = fn.args
-    params = [x.arg for x in a.posonlyargs + a.args] + ([a.vararg.arg] if a.vararg else []) + [x.arg for x in a.kwonlyargs] \
-        + ([a.kwarg.arg] if a.kwarg else [])
-    stores = sorted((n.lineno, n.col_offset, n.id) for n in ast.walk(fn) if isinstance(n, ast.Name) and isinstance(n.ctx, ast.Store))
-    loc = []
-    for _, _, i in stores:
-        if i not in params and i not in loc:
-            loc.append(i)
+    """(parameters, locals in the order of their first BINDING occurrence); every `_` store is a binding of its own (`_#k`: a discard
+    never refers to an earlier one) and a later read of `_` means the latest of them"""
+    params = _params(fn)
+    names = sorted(((n.lineno, n.col_offset, n) for n in ast.walk(fn) if isinstance(n, ast.Name)), key=lambda t: t[:2])
+    loc, k = [], 0
+    for _, _, n in names:
+        if n.id == "_" and "_" not in params:
+            if isinstance(n.ctx, ast.Store):
+                k += 1
+            if k:
+                n.id = f"_#{k}"
+        if isinstance(n.ctx, ast.Store) and n.id not in params and n.id not in loc:
+            loc.append(n.id)
     return params, loc
 
 
+def _is_message_call(call):
+    f = call.func
+    name = f.id if isinstance(f, ast.Name) else f.attr if isinstance(f, ast.Attribute) else ""
+    return name.endswith(("Error", "Exception", "Warning")) or name in MESSAGE_CALLS
+
+
+class _Normalise(ast.NodeTransformer):
+    """the edits that change no behaviour (H1): type annotations, docstrings, the TEXT of exception / warning / log / print messages;
+    `not (a OP b)` is written `a NEGOP b` (the same decision for every pair of numbers: no NaN occurs among the distances compared)"""
+    def visit_arg(self, n):
+        n.annotation = None
+        return n
+
+    def _fn(self, n):
+        n.returns = None
+        self.generic_visit(n)
+        if n.body and isinstance(n.body[0], ast.Expr) and isinstance(n.body[0].value, ast.Constant) and isinstance(n.body[0].value.value, str):
+            n.body = n.body[1:] or [ast.Pass()]
+        return n
+    visit_FunctionDef = visit_AsyncFunctionDef = _fn
+
+    def visit_AnnAssign(self, n):
+        self.generic_visit(n)
+        if n.value is None:
+            return None
+        return ast.copy_location(ast.Assign(targets=[n.target], value=n.value), n)
+
+    def visit_Call(self, n):
+        self.generic_visit(n)
+        if _is_message_call(n):
+            n.args = [ast.Constant(MSG) if isinstance(a, ast.JoinedStr) or (isinstance(a, ast.Constant) and isinstance(a.value, str)) else a
+                      for a in n.args]
+        return n
+
+    def visit_UnaryOp(self, n):
+        self.generic_visit(n)
+        c = n.operand
+        if isinstance(n.op, ast.Not) and isinstance(c, ast.Compare) and len(c.ops) == 1 and type(c.ops[0]) in NEG:
+            return ast.copy_location(ast.Compare(left=c.left, ops=[NEG[type(c.ops[0])]()], comparators=c.comparators), n)
+        return n
+
+
+def _commuting_key(st):
+    """`name[index] = <constant>`: (name, names used in the index) - two such statements on different arrays whose indices mention
+    neither array commute"""
+    if isinstance(st, ast.Assign) and len(st.targets) == 1 and isinstance(st.targets[0], ast.Subscript) \
+            and isinstance(st.targets[0].value, ast.Name) and isinstance(st.value, ast.Constant):
+        return st.targets[0].value.id, {x.id for x in ast.walk(st.targets[0].slice) if isinstance(x, ast.Name)}
+    return None
+
+
+def _sort_commuting(node):
+    """adjacent, mutually independent constant stores into different arrays (`remain_entry[p] = False; remain_exit[p] = False`) are put
+    in a fixed order: swapping them is not a change of behaviour"""
+    for field in ("body", "orelse", "finalbody"):
+        stmts = getattr(node, field, None)
+        if not isinstance(stmts, list) or not stmts or not isinstance(stmts[0], ast.stmt):
+            continue
+        out, run = [], []
+
+        def flush():
+            names = [_commuting_key(x)[0] for x in run]
+            used = set().union(*[_commuting_key(x)[1] for x in run]) if run else set()
+            if len(run) > 1 and len(set(names)) == len(names) and not (used & set(names)):
+                run.sort(key=lambda x: ast.dump(x.targets[0]))
+            out.extend(run); del run[:]
+        for st in stmts:
+            if _commuting_key(st):
+                run.append(st)
+            else:
+                flush(); out.append(st)
+        flush()
+        setattr(node, field, out)
+        for st in out:
+            _sort_commuting(st)
+    for h in getattr(node, "handlers", []) or []:
+        _sort_commuting(h)
+
+
+def _statements(fn):
+    """the statements of a function in source order (compound statements before their bodies)"""
+    out = []
+
+    def rec(stmts):
+        for st in stmts:
+            out.append(st)
+            for field in ("body", "orelse", "finalbody"):
+                sub = getattr(st, field, None)
+                if isinstance(sub, list) and sub and isinstance(sub[0], ast.stmt):
+                    rec(sub)
+            for h in getattr(st, "handlers", []) or []:
+                rec(h.body)
+    rec(fn.body)
+    return out
+
+
+def _head(st):
+    """a statement without its nested blocks (what `_stmt_digests` hashes for compound statements)"""
+    import copy
+    if any(isinstance(getattr(st, f, None), list) and getattr(st, f) and isinstance(getattr(st, f)[0], ast.stmt) for f in ("body", "orelse", "finalbody")):
+        st = copy.copy(st)
+        for f in ("body", "orelse", "finalbody"):
+            if isinstance(getattr(st, f, None), list):
+                setattr(st, f, [ast.Pass()] if getattr(st, f) else [])
+        if getattr(st, "handlers", None):
+            st.handlers = []
+    return st
+
+
 def _canon(fn):
-    """copy of the function with parameters/locals renamed (by binding position) to the documented names; keyword names of calls,
-    attributes, globals and builtins are left alone (they are API, not local naming)"""
+    """copy of the function, normalised (`_Normalise`, `_sort_commuting`) and with parameters/locals renamed (by binding position) to the
+    documented names; keyword names of calls, attributes, globals and builtins are left alone (they are API, not local naming).  Every
+    statement remembers its original text and line (`_src`) for the diagnostics."""
     import copy
     fn = copy.deepcopy(fn)
+    fn.decorator_list = []          # decorators are the framework's binding obligation (harness/decorators.json)
+    fn = ast.fix_missing_locations(_Normalise().visit(fn))
+    _sort_commuting(fn)
+    for st in _statements(fn):
+        try:
+            st._src = (st.lineno, ast.unparse(_head(st)).split("\n")[0][:110])
+        except Exception:
+            st._src = (getattr(st, "lineno", 0), type(st).__name__)
     dp, dl = DOC_NAMES[fn.name]
     params, loc = _binding_order(fn)
     ren = {}
@@ -141,14 +299,48 @@ def _canon(fn):
             n.id = ren[n.id]
         elif isinstance(n, ast.arg) and n.arg in ren:
             n.arg = ren[n.arg]
-    if fn.body and isinstance(fn.body[0], ast.Expr) and isinstance(fn.body[0].value, ast.Constant) and isinstance(fn.body[0].value.value, str):
-        fn.body = fn.body[1:]
     return fn
 
 
-def _digest(fn):
+def _h(text, hexdigits):
     import hashlib
-    return int(hashlib.sha256(ast.dump(fn, include_attributes=False).encode()).hexdigest()[:15], 16)
+    return int(hashlib.sha256(text.encode()).hexdigest()[:hexdigits], 16)
+
+
+def _digest(fn):
+    return _h(ast.dump(fn, include_attributes=False), 15)
+
+
+def _stmt_digests(fn):
+    return [_h(ast.dump(_head(st), include_attributes=False), 8) for st in _statements(fn)]
+
+
+def _first_difference(name, fn):
+    """where the canonical body leaves the documented one: the ORIGINAL text and line of the first statement that differs"""
+    got, want = _stmt_digests(fn), DOC_STMTS.get(name, [])
+    sts = _statements(fn)
+    k = next((i for i, (a, b) in enumerate(zip(got, want)) if a != b), min(len(got), len(want)))
+    if k < len(sts):
+        line, text = getattr(sts[k], "_src", (0, "?"))
+        what = f"statement #{k + 1} (line {line}): `{text}`"
+        if len(got) != len(want):
+            what += f" - the function now has {len(got)} statements, documented {len(want)} (a statement was added, removed or moved here)"
+    else:
+        what = f"the function ends after {len(got)} statements, documented {len(want)}"
+    if got == want:
+        what = "the signature (parameter list / defaults) differs; all statements are the documented ones"
+    return what
+
+
+# first 60 bits of sha256(ast.dump) of the canonical function (pinned source = documented behaviour), and 32 bits per statement (used only
+# to SAY where a body left the documented one); regenerate both with `python harness/props/c19.py --pin` after a reviewed source change
+DOC_DIGEST = {"get_nn_dist": 1055860760988674168, "add_chain_suffix": 209518513822851188, "add_chain_prefix": 723751338633858201, "trace_chains": 135505728656664680}
+DOC_STMTS = {
+    "get_nn_dist": [598203922, 386834683, 4247707376, 1970421366, 795153781, 940266538, 460173116, 2817818743, 795153781, 1111428338, 3201678449, 2817818743, 795153781, 1202893040],
+    "add_chain_suffix": [4025989485, 472120772, 962167434, 3546049063, 2102560924, 3716562597, 300960261, 2333805407, 4294352404, 962167434, 3964676271, 2774071519, 2479278400, 1250882704],
+    "add_chain_prefix": [4025989485, 3795037316, 4094545250, 300960261, 4290093041, 1135940587, 2541655772, 2102560924, 3432075589, 3940650396, 2301813156, 3023442724, 2952730989, 2301813156, 385666276, 647750314, 1897081480, 1522620345, 2576499214, 3662318516, 1135940587, 3195738721, 40715951],
+    "trace_chains": [4103463029, 1030781239, 2182142268, 3264356200, 959580664, 3986354281, 3588262425, 2247169354, 2495444196, 3398929445, 2427861931, 1716391557, 3427232504, 2621752142, 618523232, 2161726897, 4134213810, 1392530678, 2178886612, 4282582453, 1135367759, 1025378986, 3416076142, 343489244, 557529552, 1754431344, 1086304907, 1944639200, 37386759, 2396450039, 2504586115, 659180471, 3214803045, 1689619379, 2610722812, 1683977303, 1267025802, 299592184, 3497906487, 776297910, 2486635516, 1043350328, 4107557983, 2065645881, 1535898049, 1561311945, 2618181280, 427141853, 3540976909, 1283880863, 1427749306, 1824885914, 2549451903, 2112781308, 106223662, 1999657488, 433983445, 264832955, 3624077335, 3893709466, 753892211, 2423700165, 2112781308, 106223662, 1999657488, 3293194405, 38310862, 918454776, 2594827503, 1278021872, 1947166046, 214029937, 4107557983, 1477840531, 709247826, 3943175248, 3045284863, 3949440750, 686553432, 2793767635, 634318412, 68032109, 3177393923, 2409178351],
+}
 
 
 def _defaults(fn):
@@ -183,13 +375,14 @@ def translate(src):
     def body_digest(name):
         d = seen_digest[name] = _digest(canon(name))
         if d != DOC_DIGEST[name]:
-            raise core.AnchorMissing(f"{name}: the body (parameters/locals renamed to the documented names, comments and layout ignored) is not "
-                                     f"the documented one: digest {d}, documented {DOC_DIGEST[name]}")
+            raise core.AnchorMissing(f"{name}: the body (parameters/locals renamed to the documented names; comments, layout, annotations, "
+                                     f"docstrings and message texts ignored) is not the documented one - first difference: "
+                                     f"{_first_difference(name, canon(name))} [digest {d}, documented {DOC_DIGEST[name]}]")
         return d
 
     def public_params():
         """the keyword names the adapter (and every caller) uses are API: NOT renamed"""
-        got = _binding_order(raw("trace_chains"))[0]
+        got = _params(raw("trace_chains"))
         if got != DOC_NAMES["trace_chains"][0]:
             raise core.AnchorMissing(f"trace_chains: parameter names {got}, documented {DOC_NAMES['trace_chains'][0]}")
         return got
@@ -237,6 +430,49 @@ def translate(src):
             raise core.AnchorMissing(f"get_nn_dist: return rp_idx[0], rp_dist[0]; found {txt}")
         return all(t in ("(rp_idx[0],rp_dist[0])", "(-1,[])") for t in txt)
 
+    def nn_min_always():
+        """the two filters `rp_idx = rp_idx[rp_dist > dist_min]`, `rp_dist = rp_dist[rp_dist > dist_min]` and the tests they stand under:
+        True = no test of dist_min (the lower bound holds for every min_distance, also 0), False = under `dist_min > 0` (the code before
+        the repair: with min_distance = 0 a coinciding site passes at distance 0)"""
+        fn = nn()
+        found = []
+
+        def rec(stmts, tests):
+            for st in stmts:
+                if isinstance(st, ast.Assign) and len(st.targets) == 1 and core.norm_expr(st.targets[0]) in ("rp_idx", "rp_dist") \
+                        and core.norm_expr(st.value).replace("dist_min<rp_dist", "rp_dist>dist_min") \
+                        == core.norm_expr(st.targets[0]) + "[rp_dist>dist_min]":
+                    found.append((core.norm_expr(st.targets[0]), list(tests), st))
+                if isinstance(st, ast.If):
+                    t = core.norm_expr(st.test)
+                    rec(st.body, tests + [t]); rec(st.orelse, tests + ["not:" + t])
+                elif isinstance(st, (ast.For, ast.While, ast.With, ast.Try)):
+                    raise core.AnchorMissing(f"get_nn_dist: unexpected compound statement at line {st.lineno}: `{getattr(st, '_src', (0, '?'))[1]}`")
+        rec(fn.body, [])
+        if sorted(f[0] for f in found) != ["rp_dist", "rp_idx"] or found[0][1] != found[1][1] or found[0][0] != "rp_idx":
+            raise core.AnchorMissing(f"get_nn_dist: the filters rp_idx = rp_idx[rp_dist > dist_min]; rp_dist = rp_dist[rp_dist > dist_min] "
+                                     f"(in this order, under the same tests): found {[(f[0], f[1]) for f in found]}")
+        about_min = [t for t in found[0][1] if "dist_min" in t]
+        if not about_min:
+            return True
+        if about_min in (["dist_min>0"], ["0<dist_min"]):
+            return False
+        raise core.AnchorMissing(f"get_nn_dist: the lower bound `rp_dist > dist_min` stands under the test(s) {about_min}: neither unconditional "
+                                 f"nor the former `dist_min > 0`")
+
+    def subsets_positional():
+        """fm_entry/fm_exit = <list>.get_motl_subset(f, feature, reset_index=True): the helpers address rows by df.index[position]"""
+        vals = []
+        for n in ast.walk(tc()):
+            if isinstance(n, ast.Assign) and len(n.targets) == 1 and core.norm_expr(n.targets[0]) in ("fm_entry", "fm_exit") \
+                    and isinstance(n.value, ast.Call) and isinstance(n.value.func, ast.Attribute) and n.value.func.attr == "get_motl_subset":
+                kw = {k.arg: k.value for k in n.value.keywords}
+                r = kw.get("reset_index")
+                vals.append((core.norm_expr(n.targets[0]), True if r is None else (r.value if isinstance(r, ast.Constant) else None)))
+        if sorted(v[0] for v in vals) != ["fm_entry", "fm_exit"] or any(v[1] not in (True, False) for v in vals):
+            raise core.AnchorMissing(f"trace_chains: fm_entry/fm_exit = ....get_motl_subset(..., reset_index=<bool>): found {vals}")
+        return all(v[1] for v in vals)
+
     def tail_renumber():
         fn = sfx()
         for n in ast.walk(fn):
@@ -251,7 +487,7 @@ def translate(src):
 
     def prefix_first_const():
         ns = _compares(pfx(), "order_id")
-        consts = {n.comparators[0].value for n in ns if isinstance(n.comparators[0], ast.Constant)}
+        consts = {n.right.value for n in ns if isinstance(n.right, ast.Constant)}
         if len(consts) != 1:
             raise core.AnchorMissing(f"add_chain_prefix: order_id != <const>: {consts}")
         return int(consts.pop())
@@ -277,7 +513,7 @@ def translate(src):
         if len(ns) != 2:
             raise core.AnchorMissing(f"trace_chains: two comparisons first_dist ? nm_dist, found {len(ns)}")
         ns.sort(key=lambda n: n.lineno)
-        return [OPS[type(n.ops[0])] for n in ns]
+        return [n.op for n in ns]
 
     def const_assign(fn, name):
         vals = [n.value.value for n in ast.walk(fn) if isinstance(n, ast.Assign) and len(n.targets) == 1
@@ -297,10 +533,10 @@ def translate(src):
         return len(ns), int(steps.pop())
 
     def both_min_len():
-        ns = [n for n in _compares(tc(), "cl_max") if isinstance(n.comparators[0], ast.Constant)]
+        ns = [n for n in _compares(tc(), "cl_max") if isinstance(n.right, ast.Constant)]
         if len(ns) != 1:
             raise core.AnchorMissing(f"trace_chains: one comparison cl_max ? <const>, found {len(ns)}")
-        return OPS[type(ns[0].ops[0])], int(ns[0].comparators[0].value)
+        return ns[0].op, int(ns[0].right.value)
 
     def shifts(fn, wanted):
         """the `+=` statements on order-number columns, as normalised right-hand sides"""
@@ -314,8 +550,8 @@ def translate(src):
         fn = pfx()
         marks = {n.value.operand.value for n in ast.walk(fn) if isinstance(n, ast.Assign) and "store_idx1" in core.norm_expr(n.targets[0])
                  and isinstance(n.value, ast.UnaryOp) and isinstance(n.value.op, ast.USub) and isinstance(n.value.operand, ast.Constant)}
-        cmps = {core.norm_expr(n.comparators[0]) for n in _compares(fn, "traced_df[store_idx1]") if isinstance(n.ops[0], ast.Eq)
-                and core.norm_expr(n.comparators[0]).startswith("-")}
+        cmps = {core.norm_expr(n.right) for n in _compares(fn, "traced_df[store_idx1]") if n.op == "eq"
+                and core.norm_expr(n.right).startswith("-")}
         if len(marks) != 1 or cmps != {"-" + str(next(iter(marks)))}:
             raise core.AnchorMissing(f"add_chain_prefix: temporary id of the cut-off head: assigned {marks}, compared {cmps}")
         return -int(marks.pop())
@@ -337,13 +573,14 @@ def translate(src):
     v["nnSorted"] = A("get_nn_dist:query_radius sorted with distances", nn_sorted)
     v["nnTakesFirst"] = A("get_nn_dist:returns first of the sorted hits", nn_first)
     v["nnMaskCmp"] = A("get_nn_dist:active_points[id_max] == test_value", lambda: _one_op(nn(), "active_points[id_max]", "test_value", "get_nn_dist", 2))
-    v["nnMinGuard"] = A("get_nn_dist:dist_min > 0", lambda: _one_op(nn(), "dist_min", "0", "get_nn_dist", 1))
+    v["nnMinAlways"] = A("get_nn_dist:rp_dist > dist_min is applied under no test of dist_min", nn_min_always)
+    v["subsetsPositional"] = A("trace_chains:per-tomogram subsets are taken with reset_index=True", subsets_positional)
     v["nnMinCmp"] = A("get_nn_dist:rp_dist > dist_min", lambda: _one_op(nn(), "rp_dist", "dist_min", "get_nn_dist", 2))
     v["suffixNotLast"] = A("add_chain_suffix:chain_max_order != order_id", lambda: _one_op(sfx(), "chain_max_order", "order_id", "add_chain_suffix", 1))
     v["suffixKeep"] = A("add_chain_suffix:previous_dist <= current_dist", lambda: _one_op(sfx(), "previous_dist", "current_dist", "add_chain_suffix", 1))
     v["suffixTailSel"] = A("add_chain_suffix:traced_df[store_idx2] > order_id", lambda: _one_op(sfx(), "traced_df[store_idx2]", "order_id", "add_chain_suffix", 1))
     v["tailByChainOrder"] = A("add_chain_suffix:tail renumbered by `-= order_id`", tail_renumber)
-    v["prefixNotFirst"] = A("add_chain_prefix:order_id != 1", lambda: _one_op(pfx(), "order_id", None, "add_chain_prefix", 2))
+    v["prefixNotFirst"] = A("add_chain_prefix:order_id != 1", lambda: _one_op(pfx(), "order_id", None, "add_chain_prefix", 2, const_only=True))
     v["prefixFirstOrder"] = A("add_chain_prefix:first order number", prefix_first_const)
     v["prefixKeep"] = A("add_chain_prefix:previous_dist <= current_dist", lambda: _one_op(pfx(), "previous_dist", "current_dist", "add_chain_prefix", 1))
     v["prefixHeadSel"] = A("add_chain_prefix:traced_df[store_idx2] < order_id", lambda: _one_op(pfx(), "traced_df[store_idx2]", "order_id", "add_chain_prefix", 3))
@@ -360,7 +597,7 @@ def translate(src):
     sc = A("trace_chains:add_chain_suffix(...) call arguments", lambda: merge_call("add_chain_suffix", DOC_SUFFIX_CALL))
     pc = A("trace_chains:add_chain_prefix(...) call arguments", lambda: merge_call("add_chain_prefix", DOC_PREFIX_CALL))
 
-    doc = dict(nnSorted=True, nnTakesFirst=True, nnMaskCmp="eq", nnMinGuard="gt", nnMinCmp="gt", suffixNotLast="ne", suffixKeep="le",
+    doc = dict(nnSorted=True, nnTakesFirst=True, nnMaskCmp="eq", nnMinAlways=True, subsetsPositional=True, nnMinCmp="gt", suffixNotLast="ne", suffixKeep="le",
                suffixTailSel="gt", tailByChainOrder=True, prefixNotFirst="ne", prefixFirstOrder=1, prefixKeep="le", prefixHeadSel="lt",
                resolveSingle="le", resolveSameChain="le", bothSidesFreshId=True,
                classStart=1, orderStart=1, orderStepSites=1, orderStep=1, classStepSites=2, classStep=1, bothMinLenCmp="gt", bothMinLen=1,
@@ -411,6 +648,10 @@ def _tomos(case):
 
 
 def tie_free(case):
+    """the outcome does not depend on rounding or on the library's order of equally distant hits: no exit->entry distance equal to max
+    or to a POSITIVE min, all in-range distances pairwise distinct.  A distance of exactly 0 (an exit site that IS another particle's entry
+    site) is no tie: numpy computes it exactly and the statement decides it (0 is outside (min, max] for every min >= 0); only two
+    coincidences at one site would be (equal distances from one query point), so every site takes part in at most one."""
     hi, lo = case["max"] ** 2, case["min"] ** 2
     if case["max"] <= 0 or case["min"] < 0 or case["min"] >= case["max"]:
         return False
@@ -421,12 +662,18 @@ def tie_free(case):
         keys.add((r[0], r[1]))
     for rows in _tomos(case)[1]:
         seen = set()
+        zero_from, zero_to = set(), set()
         for i, a in enumerate(rows):
             for j, b in enumerate(rows):
                 if i == j:
                     continue
                 v = _d2(a[5:8], b[2:5])
-                if v == 0 or v == hi or v == lo:
+                if v == 0:
+                    if i in zero_from or j in zero_to:
+                        return False
+                    zero_from.add(i); zero_to.add(j)
+                    continue
+                if v == hi or v == lo:
                     return False
                 if v <= 4 * hi:
                     if v in seen:
@@ -566,6 +813,8 @@ def _one_tomo(rng, tier):
     """-> (kind, pts, maxd, mind) with float coordinates"""
     k = rng.random()
     big = {"quick": 26, "thorough": 60, "search": 14}[tier]
+    if tier == "quick" and rng.random() < 0.05:
+        big = 60   # the bound the quantifier names is reached in every tier
     n = rng.randint(2, 8) if rng.random() < 0.3 else rng.randint(2, big)
     maxd = rng.choice([3.0, 1.0, 12.5, rng.uniform(0.5, 40.0)])
     mind = 0.0 if rng.random() < 0.5 else maxd * rng.uniform(0.1, 0.6)
@@ -581,6 +830,22 @@ def _one_tomo(rng, tier):
     return "cascade", pts, maxd, (0.0 if rng.random() < 0.7 else maxd * rng.uniform(0.02, 0.2))
 
 
+def _coincide(rng, tomos):
+    """item 1 of audit round 2: make the exit site of some particles BE the entry site of another particle of the same tomogram"""
+    made = 0
+    for pts in tomos:
+        if len(pts) < 2 or rng.random() < 0.3:
+            continue
+        k = rng.choice([1, 1, 2, 3])
+        exits = rng.sample(range(len(pts)), min(k, len(pts)))
+        entries = rng.sample(range(len(pts)), min(k, len(pts)))
+        for i, j in zip(exits, entries):
+            if i != j:
+                pts[i] = (pts[i][0], list(pts[j][0]))
+                made += 1
+    return made
+
+
 def _build(rng, tier):
     kind, pts, maxd, mind = _one_tomo(rng, tier)
     tomos = [pts]
@@ -594,6 +859,34 @@ def _build(rng, tier):
         sc = maxd / m2
         tomos.append([([c * sc for c in e], [c * sc for c in x]) for e, x in p2[:room]])
         kinds.append(k2)
+    # a tomogram holding a SINGLE particle (2 particles in 2 tomograms is inside the quantifier)
+    if len(tomos) > 1 and rng.random() < 0.35:
+        t = rng.randrange(len(tomos)) if rng.random() < 0.3 else rng.randrange(1, len(tomos))
+        if sum(len(x) for x in tomos) - len(tomos[t]) + 1 >= 2:
+            tomos[t] = tomos[t][:1]
+            kinds[t] += "1"
+    tomos = [[(list(e), list(x)) for e, x in t] for t in tomos]
+    flags = {}
+    if rng.random() < 0.14 and _coincide(rng, tomos):
+        flags["coincide"] = True
+        if rng.random() < 0.75:
+            mind = 0.0
+    ints = rng.random() < 0.07 and sum(len(t) for t in tomos) <= 30
+    if ints:
+        # an all-integer particle list (a STAR/EM file holding whole numbers is read as int64): lengths x8, then rounded to whole units
+        flags["ints"] = True
+        maxd, mind = float(max(1, round(maxd * 8))), float(round(mind * 8))
+        if mind >= maxd:
+            mind = 0.0
+        tomos = [[([float(round(c * 8)) for c in e], [float(round(c * 8)) for c in x]) for e, x in t] for t in tomos]
+    elif rng.random() < 0.15:
+        # coordinates that need more than 24 bits: far from the origin by 2^15..2^17 units per tomogram (exact in float64, not in float32)
+        flags["far"] = True
+        for t in tomos:
+            off = [rng.choice([-1, 1]) * rng.randint(2 ** 15, 2 ** 17) for _ in range(3)]
+            for e, x in t:
+                for k in range(3):
+                    e[k] += off[k]; x[k] += off[k]
     tids = rng.sample(range(1, 400), len(tomos))
     seq = [t for t, ps in enumerate(tomos) for _ in ps]
     if rng.random() < 0.6:
@@ -608,8 +901,11 @@ def _build(rng, tier):
         sid = gids[pos] if uniq else cursor[t] + 1
         cursor[t] += 1
         g4 = 0 if rng.random() < 0.9 else rng.choice([S // 2, 7 * S + S // 4, 3 * S])
+        if ints:
+            g4 = (g4 // S) * S
         rows.append([tids[t], sid] + _q(e) + _q(x) + [g4])
-    return dict(gen="+".join(kinds), max=int(round(maxd * S)), min=int(round(mind * S)), rows=rows, split=rng.random() < 0.5)
+    return dict(gen="+".join(kinds), max=int(round(maxd * S)), min=int(round(mind * S)), rows=rows,
+                split=(rng.random() < 0.5 and not ints), **flags)
 
 
 NONDEFAULT_COLS = ["geom1", "geom3", "geom5", "score", "subtomo_mean", "class"]
@@ -617,6 +913,9 @@ NONDEFAULT_COLS = ["geom1", "geom3", "geom5", "score", "subtomo_mean", "class"]
 
 def _decorate(rng, case):
     """the axes that do not touch the geometry: payload of the other fields, how the call is written (G1), the store columns (item 2), a second call in the same process (G2)"""
+    ints = bool(case.get("ints"))
+    # the free fields in units of 1/8 (dyadic), 1/100 (decimal angles/scores with two decimals) or 1 (all-integer list)
+    case["paydiv"] = 1 if ints else (100 if rng.random() < 0.35 else 8)
     for r in case["rows"]:
         if rng.random() < 0.08:
             pay = [0] * 9
@@ -627,6 +926,12 @@ def _decorate(rng, case):
         r.extend(pay + stale)
     case["xpay"] = rng.random() < 0.3            # the exit list carries its own values in the other fields
     case["form"] = "df" if rng.random() < 0.2 else "motl"   # lists passed as Motl objects or as bare DataFrames
+    # row labels of the two DataFrames (Motl(df) keeps them): default RangeIndex, gaps (rows were removed), another order (the list was
+    # sorted), repeated labels (lists concatenated without ignore_index - what trace_chains itself returns), entry and exit labelled differently
+    case["labels"] = rng.choice([None, None, None, "gaps", "shuffled", "dup", "differ"])
+    # max/min_distance as python float, python int (whole numbers only) or numpy float64
+    whole = case["max"] % S == 0 and case["min"] % S == 0
+    case["num"] = rng.choice(["float", "float", "np64"] + (["int", "int"] if whole else []))
     call = {}
     if case["min"] == 0:
         call["min"] = "omit" if rng.random() < 0.6 else rng.choice(["pos", "kw"])
@@ -686,10 +991,15 @@ def generate(rng, tier, n):
         case = _build(rng, tier)
         ok = tie_free(case)
         tries = 0
-        while not ok and tries < 8:  # re-jitter by one grid step
+        while not ok and tries < 8:  # re-jitter by a few grid steps (whole units in an all-integer list); coinciding sites move together
+            step = S if case.get("ints") else 1
+            moved = {}
             for r in case["rows"]:
-                for k in range(2, 8):
-                    r[k] += rng.randint(-2, 2)
+                for lo in (2, 5):
+                    site = (r[0],) + tuple(r[lo:lo + 3])
+                    if site not in moved:
+                        moved[site] = [c + step * rng.randint(-2, 2) for c in r[lo:lo + 3]]
+                    r[lo:lo + 3] = moved[site]
             ok = tie_free(case); tries += 1
         if not ok or not (2 <= len(case["rows"]) <= 60):
             continue
@@ -735,6 +1045,14 @@ def shrink(case):
         yield dict(case, split=False)
     if case.get("form", "motl") != "motl":
         yield dict(case, form="motl")
+    if case.get("labels"):
+        yield dict(case, labels=None)
+    if case.get("ints"):
+        yield dict(case, ints=False)
+    if case.get("num", "float") != "float":
+        yield dict(case, num="float")
+    if case.get("paydiv", 8) == 100:
+        yield dict(case, paydiv=8)
     if case.get("call"):
         c = dict(case)
         c.pop("call")
@@ -785,7 +1103,7 @@ def _table(case, which):
         d["tomo_id"], d["subtomo_id"] = float(r[0]), float(r[1])
         d["geom4"] = r[8] / S
         for k, name in enumerate(PAY_COLS):
-            d[name] = r[9 + k] / 8.0
+            d[name] = r[9 + k] / float(case.get("paydiv", 8))
         for k, name in enumerate(STALE_COLS):
             d[name] = float(r[18 + k])
         if own:
@@ -795,9 +1113,31 @@ def _table(case, which):
     return out
 
 
+def _labels(case, which, n):
+    """row labels of the caller's DataFrame (a function of the case only)"""
+    how = case.get("labels")
+    if how == "gaps":
+        return [3 * i + 7 for i in range(n)]
+    if how == "shuffled":
+        return [(5 * i + 3) % n if math.gcd(5, n) == 1 else n - 1 - i for i in range(n)]
+    if how == "dup":
+        return [i // 2 for i in range(n)]
+    if how == "differ" and which == "exit":
+        return [100 + 2 * i for i in range(n)]
+    return None
+
+
 def _frame(case, which):
     import pandas as pd
-    return pd.DataFrame(_table(case, which), columns=COLS, dtype=float)
+    tab = _table(case, which)
+    if case.get("ints") and all(float(v).is_integer() for row in tab for v in row):
+        df = pd.DataFrame([[int(v) for v in row] for row in tab], columns=COLS, dtype="int64")
+    else:
+        df = pd.DataFrame(tab, columns=COLS, dtype=float)
+    lab = _labels(case, which, len(tab))
+    if lab is not None:
+        df.index = lab
+    return df
 
 
 def _motl(case, lo):
@@ -819,12 +1159,21 @@ def _store(case):
 
 def _call_args(case):
     call = case.get("call") or {"min": "pos"}
-    args, kw = [case["max"] / S], {}
+
+    def num(v):
+        how = case.get("num", "float")
+        if how == "int" and v % S == 0:
+            return v // S
+        if how == "np64":
+            import numpy as np
+            return np.float64(v / S)
+        return v / S
+    args, kw = [num(case["max"])], {}
     how = call.get("min", "pos")
     if how == "pos" or (how == "omit" and case["min"] != 0):
-        args.append(case["min"] / S)
+        args.append(num(case["min"]))
     elif how == "kw":
-        kw["min_distance"] = case["min"] / S
+        kw["min_distance"] = num(case["min"])
     if call.get("feature"):
         kw["feature"] = "tomo_id"
     if call.get("output_motl"):
@@ -1081,6 +1430,13 @@ def _decode(case, obs):
         # the recorded value as an exact squared distance on the grid; anything else (negative, NaN, off the grid) gets a code < 0 that
         # can never equal a squared distance: the checker then rejects it wherever the statement constrains the value (a chain's last
         # member keeps whatever the input list held in that column; the statement does not constrain it)
+        # H4, tolerance of this decoding.  Legitimate value: the library computes the squared distance of two grid points exactly
+        # (differences of <= 28-bit coordinates and their squares are exact in float64) and takes a correctly rounded sqrt, so
+        # g = sqrt(d2)/S * (1 + e), |e| <= 2^-53.  Then (g*S)^2 = d2 * (1 + 3e'), and since a link is <= max_distance <= 320 units
+        # (40 * 8 in all-integer lists) d2 <= 1.1e11 and the absolute error is <= 4e-5: round() returns d2 itself.  The test below accepts
+        # g when it is within 1e-9 (relative) of sqrt(d2)/S: ~1e7 ulp of slack for a differently ordered float64 computation, and 60 times
+        # BELOW a float32 ulp (6e-8), so a value that went through single precision is accepted only where it is exact.  An accepted g
+        # stands for the integer d2, which the Lean checker compares with the exact squared distance of the pair: no second tolerance.
         v = g * S
         r2 = int(round(v * v)) if (g == g and 0 <= v < 1e12) else -1
         if r2 < 0 or abs(math.sqrt(r2) / S - g) > 1e-9 * max(1.0, g):
@@ -1170,7 +1526,8 @@ def _judge_call(case, co, rs):
         return []     # non-default distance column: outside the statement, observed in stats only (see RULE)
     fs = []
     if co.get("input_changed"):
-        fs.append(dict(kind="spec", clause="caller-lists-unchanged", detail="; ".join(co["input_changed"])))
+        # the statement is silent about the caller's lists: a correspondence finding (the model copies, never edits), not a violation of a clause
+        fs.append(dict(kind="corr", clause="caller-lists-unchanged", detail="; ".join(co["input_changed"])))
     if "error" in co:
         clause = "does-not-return" if co["error"].startswith("TimeoutError") else "raises"
         return fs + [dict(kind="spec", clause=clause, detail=co["error"] + " @" + co.get("where", ""))]
@@ -1220,9 +1577,10 @@ def _judge_call(case, co, rs):
         elif any((x[4] if x[4] >= 0 else None) != y[3] for x, y in zip(mine, mrows)):
             fs.append(dict(kind="corr", clause="impl-vs-model-distance", detail=f"tomo {ids[t]}: recorded values differ: impl {[x[4] for x in mine][:12]} model {[y[3] for y in mrows][:12]}"))
     # types: the lists went in as float64 columns; anything else coming back is reported against the model's (float) columns
-    odd = {c: d for c, d in (co.get("dtypes") or {}).items() if d != "float64"}
+    fine = ("float64", "int64") if case.get("ints") else ("float64",)
+    odd = {c: d for c, d in (co.get("dtypes") or {}).items() if d not in fine}
     if odd and not co.get("nonnum"):
-        fs.append(dict(kind="corr", clause="column-types", detail=f"float64 lists went in, returned column types {odd}"))
+        fs.append(dict(kind="corr", clause="column-types", detail=f"{'int64' if case.get('ints') else 'float64'} lists went in, returned column types {odd}"))
     if mode == "idx":
         # non-default index columns: outside the statement's configuration -> never more than a correspondence finding
         fs = [dict(f, kind="corr", clause="nondefault-store-columns/" + f["clause"]) for f in fs]
@@ -1302,6 +1660,14 @@ def stats(case, obs, resps):
          {"default": "defaults written out", "idx": "other index columns, distance column geom4 (judged corr)",
           "dist": "non-default distance column (observed only)"}[_store(case)[3]],
          "lists_passed_as": case.get("form", "motl"),
+         "row_labels": case.get("labels") or "default",
+         "column_dtype_in": "int64" if case.get("ints") else "float64",
+         "distance_argument_type": case.get("num", "float"),
+         "free_fields_unit": f"1/{case.get('paydiv', 8)}",
+         "geometry_extras": [k for k in ("coincide", "far") if case.get(k)] or ["none"],
+         "single_particle_tomograms": sum(1 for rows in _tomos(case)[1] if len(rows) == 1),
+         "coinciding_exit_entry_pairs": sum(1 for rows in _tomos(case)[1] for i, a in enumerate(rows) for j, b in enumerate(rows)
+                                            if i != j and a[5:8] == b[2:5]),
          "exit_list_other_fields": "own values" if case.get("xpay") else "same as entry list",
          "payload": "random" if any(any(r[9:]) for r in case["rows"]) else "zeros",
          "calls_in_process": "1" if not case.get("second") else "2 (" + case["second"].get("how", "moved") + ")"}
@@ -1366,12 +1732,17 @@ LEVEL_TEXT = ("Lean 4 theorems about an executable model of trace_chains/get_nn_
               "table read from the source (opts_documented, numbering_documented) the ORDER clause and the DISTANCE clause hold through ALL branches "
               "- append, suffix attach with/without tail cut, prefix attach with/without head cut, two-sided merge with/without either cut, rejected "
               "attachments - by the loop invariant ChainsWellNumbered + link invariant (trace_chains_well_numbered, trace_orders, trace_dist), hence "
-              "the whole statement (trace_spec_full : SpecFull); the verified checkers chainsOk (check_sound) and chkFields (check_fields_sound, "
+              "the whole statement WITHOUT any hypothesis on the input (trace_spec_full : SpecFull - no exclusion of coinciding sites or of equal "
+              "distances: get_nn_dist applies `dist > min_distance` for every min_distance, min_bound_unconditional); NoTies states exactly which "
+              "inputs the generator leaves out and nearestEntry_order_free/nearestExit_order_free prove that on all others the first hit of the "
+              "radius query is the model's choice whatever order the library lists its hits in; the verified checkers chainsOk (check_sound) and chkFields (check_fields_sound, "
               "check_fields_complete) are run on the implementation's output of every call; regression witnesses "
-              "tailcut_roworder_counterexample and double_cut_shared_id_counterexample show the two repaired defects violate exactly these invariants")
-LEVEL_NOTE = ("trusted: Lean kernel; translator anchors (33: 13 comparison/bookkeeping operators used by the model + 11 numbering "
+              "tailcut_roworder_counterexample, double_cut_shared_id_counterexample and min_zero_coincidence_counterexample (the former guard "
+              "`elif dist_min > 0`: a coinciding site linked at distance 0) show the three repaired defects violate exactly these clauses")
+LEVEL_NOTE = ("trusted: Lean kernel; translator anchors (34: 14 comparison/bookkeeping operators used by the model + 11 numbering "
               "constants/shift expressions the model hard-codes, all read from the functions after renaming parameters/locals to the documented "
-              "names by binding position; syntax-tree digests of the four whole function bodies (bodies_documented: every statement, also in "
+              "names by binding position and normalising what changes no behaviour (type annotations, docstrings, message texts, `not (a > b)`, "
+              "operand order of a comparison, order of adjacent independent constant stores); syntax-tree digests of the four whole function bodies (bodies_documented: every statement, also in "
               "branches no case executes); the signature defaults and keyword names (defaults_documented, store_documented); the argument lists "
               "of the two merge-helper calls (merge_calls_as_observed)); KD-tree radius query = brute force (probed); squared-distance decoding "
               "of the distance column in the harness; the model-to-code tie is the exact comparison of rows, recorded distances AND of the "
@@ -1379,3 +1750,19 @@ LEVEL_NOTE = ("trusted: Lean kernel; translator anchors (33: 13 comparison/bookk
               "second call in one process alike")
 TECHNIQUE = "Lean 4 proof (loop invariant over relabellings of a well-numbered table, sound decidable checkers) + regenerated operator table and whole-body digests + exact differential correspondence (rows, fields and branch trace; repeated calls on caller-owned lists) on dyadic grids"
 DESIGN_REF = "DESIGN.md section 4, C19"
+
+
+if __name__ == "__main__":   # `python harness/props/c19.py --pin [repo]`: print DOC_DIGEST / DOC_STMTS of the source tree (after a REVIEWED change)
+    import sys, os
+    if "--pin" in sys.argv:
+        repo = next((a for a in sys.argv[1:] if not a.startswith("--")), os.environ.get("CRYOCAT_REPO", "/repo"))
+        tree = ast.parse(open(os.path.join(repo, RELFILE)).read())
+        fns = {}
+        for n in tree.body:
+            if isinstance(n, ast.FunctionDef) and n.name in FUNCS:
+                fns[n.name] = _canon(n)   # the last definition wins, as in Python
+        print("DOC_DIGEST = {" + ", ".join(f'"{k}": {_digest(fns[k])}' for k in FUNCS) + "}")
+        print("DOC_STMTS = {")
+        for k in FUNCS:
+            print(f'    "{k}": {_stmt_digests(fns[k])},')
+        print("}")
